@@ -1497,6 +1497,14 @@ func historyCases(rng *hx.Rng, n, steps int) {
 		}
 		state := "locked" // locked | indefinite | timed
 		var hist []string
+		var toks, obs []string // the same history for the model (Driver/C20 `hist`): op tokens and what was observed
+		rec := func(tok, o string) { toks = append(toks, tok); obs = append(obs, o) }
+		okErr := func(err error) string {
+			if err == nil {
+				return "ok"
+			}
+			return "err"
+		}
 		in := func() map[string]interface{} {
 			return map[string]interface{}{"key": hex.EncodeToString(scalar), "account": hexAddr, "history": strings.Join(hist, "; "), "passphrase-now": pw}
 		}
@@ -1525,6 +1533,13 @@ func historyCases(rng *hx.Rng, n, steps int) {
 					bad("signer-mismatch", "SignHash signature differs from the stored key's", fmt.Sprintf("%x vs %x", sig, want))
 				}
 			}
+			o := "bad"
+			if err == keystore.ErrLocked {
+				o = "locked"
+			} else if err == nil && string(sig) == string(want) {
+				o = "ok"
+			}
+			rec("S", o)
 			run.Count("history:SignHash:" + state)
 		}
 		checkSignTx := func() {
@@ -1548,6 +1563,15 @@ func historyCases(rng *hx.Rng, n, steps int) {
 					bad("signer-mismatch", "SignTx signature differs from the stored key's", "transaction hashes differ")
 				}
 			}
+			o := "bad"
+			if err == keystore.ErrLocked {
+				o = "locked"
+			} else if err == nil {
+				if want, _ := types.SignTx(tx, types.NewEIP155Signer(chain), priv); want != nil && stx.Hash() == want.Hash() {
+					o = "ok"
+				}
+			}
+			rec("T", o)
 			run.Count("history:SignTx:" + state)
 		}
 		for st := 0; st < steps; st++ {
@@ -1555,14 +1579,18 @@ func historyCases(rng *hx.Rng, n, steps int) {
 			case 0, 1: // Unlock
 				hist = append(hist, "Unlock")
 				run.Current("history Unlock")
-				if err := ks.Unlock(acc, pw); err != nil {
+				err := ks.Unlock(acc, pw)
+				rec("Uri", okErr(err))
+				if err != nil {
 					bad("roundtrip", "Unlock with the right passphrase fails", err.Error())
 				} else {
 					state = "indefinite"
 				}
 			case 2: // TimedUnlock, long
 				hist = append(hist, "TimedUnlock(1h)")
-				if err := ks.TimedUnlock(acc, pw, time.Hour); err != nil {
+				err := ks.TimedUnlock(acc, pw, time.Hour)
+				rec("Urt", okErr(err))
+				if err != nil {
 					bad("roundtrip", "TimedUnlock with the right passphrase fails", err.Error())
 				} else if state != "indefinite" {
 					state = "timed"
@@ -1570,16 +1598,20 @@ func historyCases(rng *hx.Rng, n, steps int) {
 			case 3: // TimedUnlock, short: the account locks itself again (only from a state that can expire)
 				if state == "indefinite" {
 					hist = append(hist, "TimedUnlock(20ms)")
-					if err := ks.TimedUnlock(acc, pw, 20*time.Millisecond); err != nil {
+					err := ks.TimedUnlock(acc, pw, 20*time.Millisecond)
+					rec("Urt", okErr(err))
+					if err != nil {
 						bad("roundtrip", "TimedUnlock with the right passphrase fails", err.Error())
 					}
 					continue // stays unlocked indefinitely
 				}
 				hist = append(hist, "TimedUnlock(20ms)+wait")
 				if err := ks.TimedUnlock(acc, pw, 20*time.Millisecond); err != nil {
+					rec("Urt", "err")
 					bad("roundtrip", "TimedUnlock with the right passphrase fails", err.Error())
 					continue
 				}
+				rec("Urt", "ok")
 				locked := false
 				for w := 0; w < 300 && !locked; w++ {
 					time.Sleep(10 * time.Millisecond)
@@ -1589,19 +1621,27 @@ func historyCases(rng *hx.Rng, n, steps int) {
 				if !locked {
 					run.Count("history:expiry-not-observed-within-3s")
 					ks.Lock(acc.Address)
+					rec("L", "-")
+				} else {
+					rec("X", "-") // the expiry timer fired (observed: ErrLocked)
 				}
 				state = "locked"
 			case 4:
 				hist = append(hist, "Lock")
 				ks.Lock(acc.Address)
+				rec("L", "-")
 				state = "locked"
 			case 5: // wrong passphrase
 				w := wrong()
 				hist = append(hist, "Unlock(wrong)")
-				if err := ks.Unlock(acc, w); err == nil {
+				e1 := ks.Unlock(acc, w)
+				rec("Uwi", okErr(e1))
+				if e1 == nil {
 					bad("wrong-pass-accepted", "Unlock with another passphrase", "succeeded")
 				}
-				if err := ks.TimedUnlock(acc, w, time.Hour); err == nil {
+				e2 := ks.TimedUnlock(acc, w, time.Hour)
+				rec("Uwt", okErr(e2))
+				if e2 == nil {
 					bad("wrong-pass-accepted", "TimedUnlock with another passphrase", "succeeded")
 				}
 			case 6, 7:
@@ -1613,28 +1653,41 @@ func historyCases(rng *hx.Rng, n, steps int) {
 				h := crypto.Keccak256([]byte(fmt.Sprint("hwp ", i, st)))
 				want, _ := crypto.Sign(h, priv)
 				if sig, err := ks.SignHashWithPassphrase(acc, pw, h); err != nil || string(sig) != string(want) {
+					rec("Wr", map[bool]string{true: "bad", false: "err"}[err == nil])
 					bad("signer-mismatch", "SignHashWithPassphrase differs from the stored key's signature", fmt.Sprintf("err %v", err))
+				} else {
+					rec("Wr", "ok")
 				}
-				if _, err := ks.SignHashWithPassphrase(acc, wrong(), h); err == nil {
+				_, ew := ks.SignHashWithPassphrase(acc, wrong(), h)
+				rec("Ww", okErr(ew))
+				if ew == nil {
 					bad("wrong-pass-accepted", "SignHashWithPassphrase with another passphrase", "succeeded")
 				}
 			case 10: // Update
 				np := genPass(rng, 1+rng.Intn(5))
 				hist = append(hist, "Update")
-				if err := ks.Update(acc, wrong(), np); err == nil {
+				eu := ks.Update(acc, wrong(), np)
+				rec("Pw", okErr(eu))
+				if eu == nil {
 					bad("wrong-pass-accepted", "Update with another passphrase", "succeeded")
 				}
-				if err := ks.Update(acc, pw, np); err != nil {
-					bad("roundtrip", "Update with the right passphrase fails", err.Error())
+				eu = ks.Update(acc, pw, np)
+				rec("Pr", okErr(eu))
+				if eu != nil {
+					bad("roundtrip", "Update with the right passphrase fails", eu.Error())
 				} else {
 					pw = np
 				}
 			case 11: // Export
 				hist = append(hist, "Export")
 				if js, err := ks.Export(acc, pw, "x"); err != nil {
+					rec("Er", "err")
 					bad("roundtrip", "Export with the right passphrase fails", err.Error())
 				} else if out := decryptKey(js, "x"); out != "ok "+hex.EncodeToString(scalar)+" "+hexAddr {
+					rec("Er", "bad")
 					bad("roundtrip", "Export does not carry the stored key", out)
+				} else {
+					rec("Er", "ok")
 				}
 			}
 			// a signature right after every state-changing operation
@@ -1644,6 +1697,8 @@ func historyCases(rng *hx.Rng, n, steps int) {
 		}
 		checkSign()
 		checkSignTx()
+		// the whole history as one model case: Driver/C20 replays the ops with KsState.step and compares every observation
+		run.Case("hist "+hex.EncodeToString(scalar)+" "+strings.Join(toks, ";"), strings.Join(obs, "|"))
 		os.RemoveAll(dir)
 		run.Count("history")
 	}
@@ -1794,7 +1849,7 @@ func main() {
 	}
 	nh := 25
 	if thorough {
-		nh = 1500
+		nh = 600
 	}
 	historyCases(rng.Fork(10), nh, 14)
 	updateCases(rng.Fork(8), nupd, thorough)
